@@ -96,6 +96,12 @@ EncodeClauses(e) ==
         ELSE {}
    ELSE {})
   \cup
+  (* C13 at message level: the rendering differs from the pinned one only inside fixed-width text fields *)
+  (IF P("C13") /\ Prop # "ALL"
+   THEN LET E == ExpectedEnc(T, v, reg) IN
+        IF E.ok /\ e.res = "ok" /\ OnlyFixedTextDiffers(app, E.bytes, E.mask) THEN {<<"C13.message-write", "none">>} ELSE {}
+   ELSE {})
+  \cup
   (* C04: length field = body bytes emitted; the object reports the same.  Judged where the   *)
   (* header is the pinned one - or where THIS message was rendered with the pinned header     *)
   (* elsewhere in the history (then the offsets of the layout are meaningful for this encoder  *)
